@@ -167,7 +167,8 @@ pub fn record_one(sc: &Value, out: &mut Out, id: usize) {
                 out.line(&row_event(&trace, t));
             }
             let o = trace.stack_outputs();
-            out.line(&json!({"e": "end", "outcome": "ok", "cycles": n, "trace_len": trace.get_trace_len(),
+            let chip = chiplet_rows(&trace);
+            out.line(&json!({"e": "end", "outcome": "ok", "cycles": n, "trace_len": trace.get_trace_len(), "chip": chip,
                 "out_stack": o.stack().iter().map(|x| u64_to_limbs(*x)).collect::<Vec<_>>(),
                 "out_addrs": o.overflow_addrs().iter().map(|x| u64_to_limbs(*x)).collect::<Vec<_>>(),
                 "lens": {"main": n, "range": trace.trace_len_summary().range_trace_len(), "chiplets": trace.trace_len_summary().chiplets_trace_len().trace_len()}}));
@@ -183,6 +184,48 @@ pub fn record_one(sc: &Value, out: &mut Out, id: usize) {
             out.line(&json!({"e": "end", "outcome": "panic", "msg": msg}));
         }
     }
+}
+
+/// responses side of the lookups (C12): memory rows, bitwise results, range table, hasher row count, kernel ROM rows
+pub fn chiplet_rows(trace: &ExecutionTrace) -> Value {
+    use miden_air::trace::chiplets::{
+        BITWISE_A_COL_IDX, BITWISE_B_COL_IDX, BITWISE_OUTPUT_COL_IDX, BITWISE_SELECTOR_COL_IDX, MEMORY_ADDR_COL_IDX, MEMORY_CLK_COL_IDX, MEMORY_CTX_COL_IDX,
+        MEMORY_D0_COL_IDX, MEMORY_D1_COL_IDX, MEMORY_SELECTORS_COL_IDX, MEMORY_V_COL_RANGE,
+    };
+    use miden_air::trace::{range::{M_COL_IDX, V_COL_IDX}, CHIPLETS_OFFSET};
+    let m = trace.main_segment();
+    let total = trace.get_trace_len() - 1;
+    let g = |c: usize, t: usize| m.get_column(c)[t];
+    let (mut mem, mut memd, mut bw, mut hasher_rows, mut kernel) = (vec![], vec![], vec![], 0usize, vec![]);
+    for t in 0..total {
+        let s = |i: usize| g(CHIPLETS_OFFSET + i, t);
+        if s(0) == vm_core::ZERO {
+            hasher_rows += 1;
+        } else if s(1) == vm_core::ZERO {
+            if t % 8 == 7 {
+                bw.push(json!([g(BITWISE_SELECTOR_COL_IDX, t).as_int(), felt_to_limbs(g(BITWISE_A_COL_IDX, t)), felt_to_limbs(g(BITWISE_B_COL_IDX, t)),
+                               felt_to_limbs(g(BITWISE_OUTPUT_COL_IDX, t))]));
+            }
+        } else if s(2) == vm_core::ZERO {
+            let w: Vec<Felt> = MEMORY_V_COL_RANGE.map(|c| g(c, t)).collect();
+            mem.push(json!([g(MEMORY_CTX_COL_IDX, t).as_int(), felt_to_limbs(g(MEMORY_ADDR_COL_IDX, t)), g(MEMORY_CLK_COL_IDX, t).as_int(),
+                            g(MEMORY_SELECTORS_COL_IDX, t).as_int(), felts_to_json(&w)]));
+            memd.push(g(MEMORY_D0_COL_IDX, t).as_int());
+            memd.push(g(MEMORY_D1_COL_IDX, t).as_int());
+        } else if s(3) == vm_core::ZERO {
+            let r: Vec<Felt> = (0..4).map(|i| g(CHIPLETS_OFFSET + 6 + i, t)).collect();
+            kernel.push(json!([g(CHIPLETS_OFFSET + 4, t).as_int(), felts_to_json(&r)]));
+        }
+    }
+    // range table: (value, multiplicity) of rows with a non-zero multiplicity
+    let mut range = vec![];
+    for t in 0..total {
+        let mult = g(M_COL_IDX, t).as_int();
+        if mult != 0 {
+            range.push(json!([g(V_COL_IDX, t).as_int(), mult]));
+        }
+    }
+    json!({"mem": mem, "memd": memd, "bw": bw, "hasher_rows": hasher_rows, "kernel": kernel, "range": range})
 }
 
 pub fn record_vm(inp: &str, outp: &str) {
